@@ -1,5 +1,6 @@
 import SpowtdModel.Driver.ClassifyCmd
 import SpowtdModel.Driver.LoadCmd
+import SpowtdModel.Driver.CurvesCmd
 open Lean Spowtd Spowtd.Driver
 
 def dispatch (cmd : String) (j : Json) : Except String Json :=
@@ -13,6 +14,16 @@ def dispatch (cmd : String) (j : Json) : Except String Json :=
   | "load.f" => cmdLoad (α := Float) j
   | "load.q" => cmdLoad (α := Rat) j
   | "timestamp" => cmdTimestamp j
+  | "regrid.q" => cmdRegrid (α := Rat) j
+  | "regrid.f" => cmdRegrid (α := Float) j
+  | "headmap.q" => cmdHeadmap (α := Rat) j
+  | "solve.q" => cmdSolve (α := Rat) j
+  | "residuals.q" => cmdResiduals (α := Rat) j
+  | "assemble.q" => cmdAssemble (α := Rat) j
+  | "refindex.q" => cmdRefIndex (α := Rat) j
+  | "zetagrid.q" => cmdZetaGrid (α := Rat) j
+  | "zetagrid.f" => cmdZetaGrid (α := Float) j
+  | "pipeline.q" => cmdPipeline (α := Rat) j
   | "render" => cmdRender j
   | "classify.f" => cmdClassify (α := Float) j
   | "classify.q" => cmdClassify (α := Rat) j
